@@ -879,6 +879,11 @@ def _compose_case(ck, env: Env, sig, position: str, rng, opset_reqs, v2=None, de
             if not deep_only:  # otherwise the custom domain is used *only* inside the nested body
                 n2 = cls2(cls2.Attributes(), cls2.Inputs(i0=extra_in))
                 outs["z"] = n2.outputs.o0
+            # the same operator NAME in another domain, at another version: identity is (domain, name), never name alone
+            sig3 = dict(sig2, name=sig["name"], domain=sig["domain"] + ".twin", version=sig["version"] + 7)
+            th3, _ = hook_dicts(env, sig3)
+            cls3 = make_class(env, sig3, th3, None)
+            outs["z3"] = cls3(cls3.Attributes(), cls3.Inputs(i0=extra_in)).outputs.o0
             if position == "top":
                 y = apply()
                 outs["y"] = op.identity(y)
@@ -1008,6 +1013,10 @@ def _compose_case(ck, env: Env, sig, position: str, rng, opset_reqs, v2=None, de
     if imports.get(sig["domain"]) != want_v:
         ck.failure(f"import:{position}:version", f"opset import for {sig['domain']} is {imports.get(sig['domain'])}; versions used "
                    f"{sig['version']}" + ("" if deep_only else f" and {sig2['version']}"), case)
+    twins = [n for n in find_nodes(model.graph, sig["domain"] + ".twin") if n.op_type == sig["name"]]
+    if len(twins) != 1 or list(twins[0].input) != ["extra"] or imports.get(sig["domain"] + ".twin") != sig["version"] + 7:
+        ck.failure(f"import:{position}:twin", f"operator {sig['name']} of domain {sig['domain']}.twin (version {sig['version'] + 7}): "
+                   f"{len(twins)} nodes, inputs {[list(t.input) for t in twins]}, import {imports.get(sig['domain'] + '.twin')}", case)
     if len([o for o in model.opset_import if o.domain == sig["domain"]]) != 1:
         ck.failure(f"import:{position}:duplicate", "several imports of the custom domain", case)
     if real_req is not None:
